@@ -112,11 +112,22 @@ def r_retrieve_tree(repo, rep, R, what):
     for st, out in rt.paths:
         kinds.setdefault(rt.classify(st), []).append((st, out))
     for k in ('fin', 'leaf', 'unary', 'binary'):
-        if len(kinds.get(k, [])) != 1:
-            raise AnalysisError('%s: retrieve_tree: expected exactly one %s path, found %d (kinds: %s)'
-                                % (REL, k, len(kinds.get(k, [])), {a: len(b) for a, b in kinds.items()}))
-    if '?' in kinds:
-        raise AnalysisError('%s: retrieve_tree has %d unclassified paths' % (REL, len(kinds['?'])))
+        if len(kinds.get(k, [])) == 0:
+            raise AnalysisError('%s: retrieve_tree: no %s path found (kinds: %s)' % (REL, k, {a: len(b) for a, b in kinds.items()}))
+        if len(kinds[k]) > 1:
+            rep.violation(R, '%s:%s retrieve_tree' % (REL, rt.fn.lineno), 'retrieve_tree:%s:several-paths' % k,
+                          'retrieve_tree reconstructs a %s node along %d different paths (extra conditions decide how a node is rebuilt)' % (k, len(kinds[k])))
+            kinds[k] = kinds[k][:1]
+    for st, out in kinds.get('?', []):
+        node = None
+        for e in reversed(st.events):
+            if e[0] in ('return', 'call'):
+                node = e[-1]
+                break
+        pushed = st.data.get('stack', [])
+        rep.violation(R, w(node) if node is not None else w(rt.fn), 'retrieve_tree:extra-path',
+                      'retrieve_tree has a path that is none of goal / leaf / unary / binary reconstruction: it leaves %s on the result stack and returns %s '
+                      '(a node not rebuilt from this very item, its children and its rule)' % ([show(x)[:40] for x in pushed], show(st.ret)[:40] if st.ret else None))
     cat_t = S(S(kw, C('categories')), A(item, 'cat'))
     fin_st = kinds['fin'][0][0]
     rec = ('call', N(rt.fn.name), (A(item, 'left'), tok, cache, kw), ())
